@@ -40,6 +40,14 @@ theorem Api.same_kernel : table.sameKernel = true := by decide +kernel
 
 theorem Api.same_kernel_cache : tableCache.sameKernel = true := by decide +kernel
 
+/-- The composite helpers that are defined once as templates over the variable type
+(contrib/functions.h: selu, mean, batch::mean, batch::normalize, zeros, ones, dropout) run,
+instantiated on Nodes, the same kernels on the same arguments as instantiated on Tensors. -/
+theorem Api.same_kernel_composites :
+    table.sameKernelComposites = true ∧ tableCache.sameKernelComposites = true := by decide +kernel
+
+example : table.genericComposites.length = 11 := by decide +kernel
+
 /-- For every operator registered by a public Node function whose FORWARD is a
 single kernel call, FWD_SHAPE computes the static shape with the same shape
 rule applied to the same arguments as the device front-end of that kernel uses
